@@ -10,6 +10,40 @@ NAMES = ["yylex", "create+switch", "create+push", "pop", "switch", "flush", "del
          "scan_buffer(bad)", "yyrestart", "new yyin"]
 
 
+NULL_SPEC = """%option noyywrap
+%{
+#include <string.h>
+static const char *in = "ab"; static int pos;
+#define YY_INPUT(b,r,m) do { int n = (int)strlen(in) - pos; if (n > (int)(m)) n = (int)(m); memcpy(b, in + pos, n); pos += n; r = n; } while (0)
+static int ntok;
+%}
+%%
+[ab]   { ntok++; }
+%%
+int main(void) { yy_switch_to_buffer(yy_create_buffer(NULL, 16)); yylex(); printf("%d\\n", ntok); return 0; }
+"""
+
+
+def null_file_probe(flex):
+    import os, shutil, subprocess
+    wd = H.mkscratch("c11n")
+    try:
+        open(os.path.join(wd, "n.l"), "w").write(NULL_SPEC)
+        rc, out, err = H.run_flex(flex, ["-o", "n.c", "n.l"], wd)
+        if rc:
+            return {"error": "flex: " + err}
+        p = subprocess.run(["gcc", "-w", "-o", "n", "n.c"], cwd=wd, stdout=subprocess.PIPE, stderr=subprocess.PIPE)
+        if p.returncode:
+            return {"error": "cc: " + p.stderr.decode()[-300:]}
+        p = subprocess.run(["./n"], cwd=wd, stdin=subprocess.DEVNULL, stdout=subprocess.PIPE, stderr=subprocess.PIPE, timeout=20)
+        try:
+            return {"tokens": int(p.stdout.decode().strip() or -1), "rc": p.returncode}
+        except ValueError:
+            return {"tokens": -1, "rc": p.returncode, "stdout": p.stdout.decode()[:200]}
+    finally:
+        shutil.rmtree(wd, ignore_errors=True)
+
+
 def run(tier):
     ck = Check("C11", tier, "model_checking")
     ck.flex()
@@ -67,6 +101,14 @@ def run(tier):
                          case={"cmd": v["cmd"], "viol": {k: v[k] for k in v if k not in ("spec", "tables", "cmd")}},
                          files={"s.l": v["spec"], "s_tables.h": v["tables"]})
         ck.sample({"job": job["tag"], "executions": sm["executions"], "calls": dict(zip(NAMES, sm.get("calls", [])))})
+    # directed probe: "If you redefine yyread() so it no longer uses yyin, then you can safely pass a NULL FILE pointer to yy_create_buffer"
+    r = null_file_probe(ck.flex())
+    ck.add("directed_probes")
+    if r.get("error"):
+        ck.broken.append("NULL-file probe could not be built: " + r["error"][:300])
+    elif r["tokens"] != 2:
+        ck.violation("C11:create_buffer-NULL-file-not-read", "yy_create_buffer(NULL, size) with a user input routine: %d of 2 tokens scanned "
+                     "(the buffer is marked as not refillable and reports end of input at once)" % r["tokens"], case=r, files={"n.l": NULL_SPEC})
     ck.cov.update(states=tot["choice_points"], transitions=sum(calls) + tot["yywraps"], traces_validated_against_impl=tot["executions"],
                   evaluations=tot["executions"], distinct_nontrivial=tot["nontrivial"], tokens_compared=tot["tokens"],
                   calls=dict(zip(NAMES, calls)),
